@@ -797,3 +797,15 @@ K("flip.local_postcondition", ["C04", "C08"], FLIPS, "flips_verify.rs", "local_p
   claim="verify_repair_postcondition_locally (the verdict behind is_valid / is_delaunay_via_flips and behind every repair's Ok): Ok <=> seeding, k=2, k=3, inverse k=2, inverse k=3 and connectivity all pass; every verifier consulted",
   mutant=dict(file=FLIPS, old="    verify_postcondition_inverse_k2_edges(\n        tds,\n        kernel,\n        &mut queues.edge_queue,\n        &config,\n        &mut diagnostics,\n    )?;\n", new="",
               desc="the inverse k=2 edge check dropped from the Delaunay verdict"))
+
+for nm, d, b, tier in [("d1b4", 1, 4, "quick"), ("d2b31", 2, 31, "thorough")]:
+    K(f"hilbert.quantize.{nm}", ["C17", "C19"], HIL, "hilbert.rs", f"hilbert_quantize_d{d}_b{b}", "K-full", [fn(HIL, "hilbert_quantize")], tier=tier, timeout=1800,
+      obligations=["quantize-in-grid", "quantize-valid-bits-ok"],
+      claim=f"hilbert_quantize::<f64,{d}>(coords, bounds, {b}) for EVERY f64 coordinate and bound (NaN, infinities, inverted / degenerate bounds): Ok, and every quantised coordinate < 2^bits; no panic")
+K("hilbert.bad_parameters", ["C17", "C19"], HIL, "hilbert.rs", "hilbert_bad_parameters_contract", "K-full",
+  [fn(HIL, "hilbert_quantize"), fn(HIL, "hilbert_index"), fn(HIL, "hilbert_indices_prequantized")], timeout=900,
+  obligations=["quantize-bad-bits", "index-bad-bits", "bulk-bad-bits", "index-overflow", "bulk-overflow"],
+  claim="hilbert_quantize / hilbert_index / hilbert_indices_prequantized: bits == 0 or > 31 => InvalidBitsParameter; D*bits > 128 => IndexOverflow (never a wrapped index, never a panic)",
+  mutant=dict(file=HIL, old="    // Validate overflow\n    let total_bits = u128::from(d_u32) * u128::from(bits);\n    if total_bits > 128 {\n        return Err(HilbertError::IndexOverflow {\n            dimension: D,\n            bits,\n            total_bits,\n        });\n    }\n\n    if D == 0 {\n        return Ok(0);\n    }",
+              new="    // Validate overflow\n    let total_bits = u128::from(d_u32) * u128::from(bits);\n    if total_bits > 256 {\n        return Err(HilbertError::IndexOverflow {\n            dimension: D,\n            bits,\n            total_bits,\n        });\n    }\n\n    if D == 0 {\n        return Ok(0);\n    }",
+              desc="index overflow guard of hilbert_index relaxed to 256 bits"))
